@@ -1159,9 +1159,10 @@ def state_ok(s, tame, rot_seen):
 
 def tame_k(st, tame):
     """np.uint8(k % 256) turns a negative k into a count near 250, and the implementation evaluates
-    cos/sin(k*pi/2) with an error that grows with k: on meshes with subregions (tolerance tests) such counts
-    are kept out of the exact stream (reported separately)"""
-    if tame and st.get("op") == "rotate" and st["k"].get("t") == "int" and (st["k"].get("rep") or "").startswith("u") \
+    cos/sin(k*pi/2) with an error that grows with k (times the distance to the reference point): the subregion
+    setter's tolerance tests refuse such turns and, about a far reference point, the error outlives the 1e-9
+    comparison of later steps; such counts are kept out of the compared stream (reported separately)"""
+    if st.get("op") == "rotate" and st["k"].get("t") == "int" and (st["k"].get("rep") or "").startswith("u") \
             and st["k"]["v"] < 0:
         st["k"] = dict(st["k"], rep=None)
     return st
